@@ -41,16 +41,24 @@ def norm_func(f):
     return f.strip()
 
 
+TSAN_FRAME = re.compile(r'^\s*#(\d+) (.*?) (\S+?)(?::(\d+))?(?::\d+)? \((\S+)\)\s*$')
+
+
 def parse_stack(lines):
-    """list of (func, file, line) for consecutive '#n' frame lines"""
+    """list of (func, file, line) for consecutive '#n' frame lines (ASan/UBSan and TSan formats)"""
     st = []
     for l in lines:
-        m = FRAME.match(l.rstrip())
-        if not m:
-            if st:
-                break
+        l = l.rstrip()
+        m = FRAME.match(l)
+        if m and re.match(r'^\s*#\d+ 0x', l):
+            st.append((m.group(2).strip(), m.group(3) or '', m.group(4) or ''))
             continue
-        st.append((m.group(2).strip(), m.group(3) or '', m.group(4) or ''))
+        m = TSAN_FRAME.match(l)
+        if m:
+            st.append((m.group(2).strip(), m.group(3) or '', m.group(4) or ''))
+            continue
+        if st:
+            break
     return st
 
 
@@ -59,14 +67,31 @@ def is_lib(fr):
     return 'ompl::' in fn and '/harness/' not in fi
 
 
+CONTAINER = re.compile(r'^ompl::(PDF|Grid|GridN|GridB|BinaryHeap|NearestNeighbors\w*|GreedyKCenters)::')
+
+
 def first_lib_frame(stack):
+    """innermost frame that belongs to the library: located in the repository sources (std:: / boost:: frames inlined
+    from library code are skipped), else a function in namespace ompl"""
+    container = None
     for fr in stack:
-        if is_lib(fr):
-            return norm_func(fr[0])
-    # fall back to a frame located in the repository sources
+        fn, fi, _ = fr
+        if '/src/ompl/' in fi and '/harness/' not in fi:
+            n = norm_func(fn)
+            if n.startswith('std::') or n.startswith('boost::') or n.startswith('__gnu_cxx::') or n.startswith('Eigen::'):
+                continue
+            # the containers are not thread safe by themselves: the culprit is the library code that calls them
+            # (if the harness called them directly there is no such frame and the container function is used)
+            if CONTAINER.match(n):
+                container = container or n
+                continue
+            return n
+    if container:
+        return container
     for fr in stack:
-        if '/src/ompl/' in fr[1]:
-            return norm_func(fr[0])
+        n = norm_func(fr[0])
+        if n.startswith('ompl::') and '/harness/' not in fr[1]:
+            return n
     return norm_func(stack[0][0]) if stack else 'unknown'
 
 
@@ -150,6 +175,20 @@ def tsan_reports(txt):
         yield dict(kind=kind, sections=[(t, parse_stack(s)) for t, s in sections], text=b)
 
 
+PLANNER_NS = re.compile(r'^ompl::(geometric|control|multilevel)::')
+
+
+def race_frame(stack):
+    """frame naming a data race: the innermost planner function if the access happens (however deep) inside a planner --
+    generic state-space / container functions reached from a planner are symptoms of the planner's locking -- else the
+    innermost library function"""
+    for fr in stack:
+        n = norm_func(fr[0])
+        if PLANNER_NS.match(n) and '/harness/' not in fr[1]:
+            return n
+    return first_lib_frame(stack)
+
+
 def tsan_keys(prop, txt):
     """data races keyed by the innermost library function of both accesses; other report kinds by their first stack"""
     out = {}
@@ -157,11 +196,11 @@ def tsan_keys(prop, txt):
         kind = r['kind']
         if kind == 'data race':
             acc = [(t, s) for t, s in r['sections'] if re.match(r'(Write|Read|Previous|Atomic|As if)', t) and s]
-            fs = sorted(first_lib_frame(s) for _, s in acc[:2])
+            fs = sorted(race_frame(s) for _, s in acc[:2])
             key = '%s:race:%s' % (prop, '|'.join(fs))
         elif 'lock-order-inversion' in kind:
             sts = [s for t, s in r['sections'] if s]
-            fs = sorted(set(first_lib_frame(s) for s in sts[:4]))
+            fs = sorted(set(race_frame(s) for s in sts[:4]))
             key = '%s:lock-order:%s' % (prop, '|'.join(fs[:2]))
         else:
             sts = [s for t, s in r['sections'] if s]
